@@ -31,6 +31,7 @@ import (
 	"github.com/gontainer/gontainer-helpers/v3/exporter"
 	"github.com/gontainer/gontainer-helpers/v3/grouperror"
 	"github.com/gontainer/gontainer/internal/pkg/input"
+	"github.com/gontainer/gontainer/internal/pkg/maps"
 	"github.com/gontainer/gontainer/internal/pkg/output"
 	"gopkg.in/yaml.v3"
 )
@@ -109,13 +110,13 @@ func (s *StepReadConfig) Run(i *input.Input, _ *output.Output) (err error) {
 		errs = append(errs, errors.New("could not process any files"))
 	}
 
-	for f, p := range processed {
+	maps.Iterate(processed, func(f string, p []string) {
 		if len(p) > 1 {
 			tmpPatterns := fmt.Sprintf("%#v", p)
 			tmpPatterns = strings.TrimPrefix(tmpPatterns, "[]string")
 			errs = append(errs, fmt.Errorf("file %+q matches more than one pattern: %s", f, tmpPatterns))
 		}
-	}
+	})
 
 	err = grouperror.Join(errs...)
 	return
